@@ -15,7 +15,8 @@
     `Ord` of `ContextBinding`, `Backend.tempLt`/`tempEq` = the `Ord` of the temporaries);
   * Rust panic sites are `throw`s; the only possible non-termination (`spanning_tree` on a move
     graph with a cycle that avoids the root: unbounded recursion = stack overflow in Rust) is
-    detected EXACTLY by fuel = number of keys + 2 and reported as an error.
+    detected EXACTLY by fuel = number of distinct temporaries + 1 (a path without repetition is not
+    longer) and reported as an error.
 -/
 import Scc.Backend.Interface
 
@@ -207,8 +208,12 @@ def spanningForestLoop (fuel : Nat) : List T → List (T × List T) → Except S
         | .error e => .error e
         | .ok roots => .ok (root :: roots)
 
+/-- the distinct temporaries of the map (keys and targets) -/
+def allNodes (pm : List (T × List T)) : List T :=
+  @List.eraseDups T ⟨B.tempEq⟩ (pm.map (·.1) ++ pm.flatMap (·.2))
+
 def spanningForest (pm : List (T × List T)) : Except String (List (Root T)) :=
-  spanningForestLoop B (pm.length + 2) (pm.map (·.1)) pm
+  spanningForestLoop B ((allNodes B pm).length + 1) (pm.map (·.1)) pm
 
 mutual
   /-- parallel_moves.rs: fn tree_moves -/
